@@ -532,10 +532,10 @@ def run(tier, r):
         h = gen_q_history(r)
         v, nt = run_q_history(h)
         record(h, v, nt)
+        if len(samples) < 1 and len(h["ops"]) <= 12:
+            samples.append(h)
         if len(viol) >= 10:
             break
-    if len(samples) < 1:
-        samples.append(gen_q_history(oc.random.Random(1)))
     for i in range(ns):
         if bud.over() or len(viol) >= 20:
             break
